@@ -1,93 +1,128 @@
-"""Contracts for comb_spec_searcher/equiv_db.py (property C06): union-find find with path compression.
+"""Contracts for comb_spec_searcher/equiv_db.py (property C06; used by C05/C02/C14).
 
-root(P, x) is the specification function  root(P, x) = x if P[x] == x else root(P, P[x])  (a recursive definition over
-the parents map; total on the acyclic maps the data structure maintains)."""
-import z3
+Ghost state: `rep` -- the representative of every label (a total map; labels the database has not seen represent
+themselves).  The representation invariant ties the parent pointers to it without any recursion:
+    rep[parents[x]] == rep[x]          (a pointer never leaves the class)
+    parents[x] == x  ==>  rep[x] == x  (a root represents itself)
+so that the pointer chase of `find` ends at rep[x] (partial correctness; termination/acyclicity is not proved here).
+`rep` is updated by ghost statements exactly where a root is re-pointed (union)."""
 from pyvc.dsl import *
-from pyvc.core import Val
 
 F = "comb_spec_searcher/equiv_db.py"
-_rootf = None
-
-
-def rootf():
-    global _rootf
-    if _rootf is None:
-        A = z3.ArraySort(z3.IntSort(), z3.IntSort())
-        f = z3.RecFunction("uf_root", A, z3.IntSort(), z3.IntSort())
-        p, x = z3.Const("uf_p", A), z3.Int("uf_x")
-        z3.RecAddDefinition(f, [p, x], z3.If(z3.Select(p, x) == x, x, f(p, z3.Select(p, x))))
-        _rootf = f
-    return _rootf
-
-
-def _root(ex, st, d, x):
-    return Val(Int, rootf()(ex.dvals(st, d), x.z))
-
-
-spec_fn("uf_root", _root)
 
 klass(F, "EquivalenceDB",
       fields={"parents": Dict(Int, Int), "weights": Dict(Int, Int), "verified_roots": Set(Int),
               "vertices": DefaultDict(Int, Set(Int)), "_one_way_vertices": DefaultDict(Int, Set(Int))},
+      ghost_fields={"rep": Map(Int, Int)},
       invariant=["not same(self.parents, self.weights)", "not same(self.vertices, self._one_way_vertices)",
+                 "forall(lambda k: implies(k in self.vertices, not same(self.vertices[k], self.verified_roots)))",
+                 "forall(lambda k: implies(k in self._one_way_vertices, not same(self._one_way_vertices[k], self.verified_roots)))",
                  "forall(lambda x: implies(x in self.parents, self.parents[x] in self.parents))",
-                 "forall(lambda x: implies(x in self.parents, x in self.weights))"])
-
-_SAME_DOM = "forall(lambda y: (y in self.parents) == old(y in self.parents))"
+                 "forall(lambda x: implies(x in self.parents, x in self.weights))",
+                 "forall(lambda x: implies(x in self.parents, self.rep[self.parents[x]] == self.rep[x]))",
+                 "forall(lambda x: implies(x in self.parents and self.parents[x] == x, self.rep[x] == x))",
+                 "forall(lambda x: implies(not (x in self.parents), self.rep[x] == x))",
+                 "forall(lambda x: implies(x in self.parents, self.rep[x] in self.parents))",
+                 "forall(lambda x: self.rep[self.rep[x]] == self.rep[x])"])
+E = Obj("EquivalenceDB")
+_REP_SAME = "forall(lambda y: self.rep[y] == old(self.rep[y]))"
+_VR_SAME = "forall(lambda y: (y in self.verified_roots) == old(y in self.verified_roots))"
+_FIND_MODS = ["*self.parents", "*self.weights"]
 
 contract(F, "EquivalenceDB.__getitem__", props=["C06", "C05"],
-         params={"self": Obj("EquivalenceDB"), "comb_class": Int}, returns=Int,
+         params={"self": E, "comb_class": Int}, returns=Int,
          locals={"path": List(Int), "root": Opt(Int)},
-         ensures=[
-             # unknown label: inserted as its own root with weight 1, nothing else changes
-             "implies(not old(comb_class in self.parents), result == comb_class and self.parents[comb_class] == comb_class "
-             "and self.weights[comb_class] == 1)",
-             "implies(not old(comb_class in self.parents), forall(lambda y: implies(y != comb_class, "
-             "(y in self.parents) == old(y in self.parents) and self.parents[y] == old(self.parents[y]))))",
-             # known label: the result is its root, the result is a root, the key set is unchanged
-             "implies(old(comb_class in self.parents), result == old(uf_root(self.parents, comb_class)))",
-             "implies(old(comb_class in self.parents), self.parents[result] == result and " + _SAME_DOM + ")",
-             # path compression is sound: a rewritten pointer points to the old root of that label
-             "implies(old(comb_class in self.parents), forall(lambda y: implies(old(y in self.parents), "
-             "self.parents[y] == old(self.parents[y]) or (self.parents[y] == result and old(uf_root(self.parents, y)) == result))))",
-             "forall(lambda y: implies(y != comb_class, (y in self.weights) == old(y in self.weights) and "
-             "self.weights[y] == old(self.weights[y])))",
-         ],
+         ensures=["result == self.rep[comb_class]", _REP_SAME,
+                  "result in self.parents and self.parents[result] == result",
+                  "forall(lambda y: implies(y != comb_class, (y in self.parents) == old(y in self.parents)))",
+                  "comb_class in self.parents",
+                  "forall(lambda y: implies(y != comb_class, (y in self.weights) == old(y in self.weights) and "
+                  "self.weights[y] == old(self.weights[y])))",
+                  "implies(old(comb_class in self.parents), self.weights[comb_class] == old(self.weights[comb_class]))"],
          loops={
-             0: dict(invariant=[
-                 "not is_none(root)", "len(path) >= 1", "val(root) in self.parents",
-                 "val(root) == self.parents[path[len(path) - 1]]",
-                 "forall(lambda j: implies(0 <= j and j < len(path), path[j] in self.parents and "
-                 "uf_root(self.parents, path[j]) == uf_root(self.parents, comb_class)))"],
-                 modifies=["*path"]),
-             1: dict(invariant=[
-                 "not is_none(root)",
-                 "forall(lambda y: (y in self.parents) == at('loop1', y in self.parents))",
-                 "self.parents[val(root)] == val(root)",
-                 "forall(lambda y: implies(y in self.parents, self.parents[y] == at('loop1', self.parents[y]) or "
-                 "(self.parents[y] == val(root) and exists(lambda j: 0 <= j and j < _i1 and path[j] == y))))"],
-                 modifies=["*self.parents"]),
+             0: dict(invariant=["not is_none(root)", "len(path) >= 1", "val(root) in self.parents",
+                                "val(root) == self.parents[path[len(path) - 1]]", "self.rep[val(root)] == self.rep[comb_class]",
+                                "forall(lambda j: implies(0 <= j and j < len(path), path[j] in self.parents and "
+                                "self.rep[path[j]] == self.rep[comb_class]))"],
+                     modifies=["*path"]),
+             1: dict(invariant=["not is_none(root)", "val(root) in self.parents", "self.rep[val(root)] == val(root)",
+                                "forall(lambda y: (y in self.parents) == at('loop1', y in self.parents))",
+                                "self.parents[val(root)] == val(root)",
+                                "forall(lambda x: implies(x in self.parents, self.parents[x] in self.parents))",
+                                "forall(lambda x: implies(x in self.parents, self.rep[self.parents[x]] == self.rep[x]))",
+                                "forall(lambda x: implies(x in self.parents and self.parents[x] == x, self.rep[x] == x))"],
+                     modifies=["*self.parents"]),
          },
-         modifies=["*self.parents", "*self.weights"],
-         notes="termination of the pointer chase (acyclicity) is not proved here; bounded stand-in covers it")
+         modifies=_FIND_MODS,
+         notes="find with path compression: returns the representative, never changes the partition")
 
 contract(F, "EquivalenceDB.is_verified", props=["C06"],
-         params={"self": Obj("EquivalenceDB"), "comb_class": Int}, returns=Bool,
-         ensures=["implies(old(comb_class in self.parents), result == (old(uf_root(self.parents, comb_class)) in self.verified_roots))",
-                  "implies(not old(comb_class in self.parents), result == (comb_class in self.verified_roots))",
-                  "forall(lambda y: (y in self.verified_roots) == old(y in self.verified_roots))"],
-         modifies=["*self.parents", "*self.weights"])
+         params={"self": E, "comb_class": Int}, returns=Bool,
+         ensures=["result == (self.rep[comb_class] in self.verified_roots)", _REP_SAME, _VR_SAME],
+         modifies=_FIND_MODS)
 
 contract(F, "EquivalenceDB.equivalent", props=["C06"],
-         params={"self": Obj("EquivalenceDB"), "label": Int, "other_label": Int}, returns=Bool,
-         ensures=[],
-         modifies=["*self.parents", "*self.weights"],
-         notes="answered by comparing the two find() results")
+         params={"self": E, "label": Int, "other_label": Int}, returns=Bool,
+         ensures=["result == (self.rep[label] == self.rep[other_label])", _REP_SAME, _VR_SAME],
+         modifies=_FIND_MODS, notes="two labels are equivalent iff they have the same representative")
+
+contract(F, "EquivalenceDB.set_verified", props=["C06", "C05", "C14"],
+         params={"self": E, "comb_class": Int},
+         ensures=[_REP_SAME,
+                  "forall(lambda y: (y in self.verified_roots) == (old(y in self.verified_roots) or y == self.rep[comb_class]))"],
+         modifies=_FIND_MODS + ["*self.verified_roots"],
+         notes="marks the whole class: exactly the representative is added")
+
+_IS_VER = "(self.rep[{y}] in self.verified_roots)"
+_WAS_VER = "old(self.rep[{y}] in self.verified_roots)"
+contract(F, "EquivalenceDB._set_equivalent", props=["C06"],
+         params={"self": E, "label": Int, "other_label": Int},
+         ensures=[
+             # the two classes are merged, every other class is untouched
+             "self.rep[label] == self.rep[other_label]",
+             "forall(lambda y: implies(old(self.rep[y]) != old(self.rep[label]) and old(self.rep[y]) != old(self.rep[other_label]), "
+             "self.rep[y] == old(self.rep[y])))",
+             "forall(lambda y: implies(old(self.rep[y]) == old(self.rep[label]) or old(self.rep[y]) == old(self.rep[other_label]), "
+             "self.rep[y] == self.rep[label]))",
+             "self.rep[label] == old(self.rep[label]) or self.rep[label] == old(self.rep[other_label])",
+             # the verified flag survives the merge whichever root wins
+             "forall(lambda y: " + _IS_VER.format(y="y") + " == (" + _WAS_VER.format(y="y") + " or "
+             "((old(self.rep[y]) == old(self.rep[label]) or old(self.rep[y]) == old(self.rep[other_label])) and ("
+             + _WAS_VER.format(y="label") + " or " + _WAS_VER.format(y="other_label") + "))))"],
+         ghost_stmts={"after:assign#4": ["self.rep = remap(self.rep, r, heaviest)"]},
+         modifies=_FIND_MODS + ["*self.verified_roots", "self.rep"],
+         notes="union by weight; the verified flag is carried to the surviving root")
 
 contract(F, "EquivalenceDB._add_edge", props=["C06"],
-         params={"self": Obj("EquivalenceDB"), "label": Int, "other_label": Int},
+         params={"self": E, "label": Int, "other_label": Int},
          ensures=["implies(label != other_label, label in self.vertices and other_label in self.vertices[label])",
-                  "implies(label == other_label, forall(lambda y: (y in self.vertices) == old(y in self.vertices)))"],
+                  "implies(label == other_label, forall(lambda y: (y in self.vertices) == old(y in self.vertices)))",
+                  _REP_SAME, _VR_SAME],
          modifies=["*self.vertices", "all:Set(Int)"],
          notes="self loops are never recorded")
+
+contract(F, "EquivalenceDB.add_two_way_edge", props=["C06", "C05", "C14"],
+         params={"self": E, "label": Int, "other_label": Int},
+         ensures=["self.rep[label] == self.rep[other_label]",
+                  "forall(lambda y: implies(old(self.rep[y]) != old(self.rep[label]) and old(self.rep[y]) != old(self.rep[other_label]), "
+                  "self.rep[y] == old(self.rep[y])))",
+                  "forall(lambda y: " + _IS_VER.format(y="y") + " == (" + _WAS_VER.format(y="y") + " or "
+                  "((old(self.rep[y]) == old(self.rep[label]) or old(self.rep[y]) == old(self.rep[other_label])) and ("
+                  + _WAS_VER.format(y="label") + " or " + _WAS_VER.format(y="other_label") + "))))"],
+         modifies=_FIND_MODS + ["*self.verified_roots", "self.rep", "*self.vertices", "all:Set(Int)"],
+         notes="records both directions and merges the two classes")
+
+contract(F, "EquivalenceDB.add_one_way_edge", props=["C06", "C05", "C14"],
+         params={"self": E, "label": Int, "other_label": Int},
+         ensures=[_REP_SAME, "forall(lambda y: " + _IS_VER.format(y="y") + " == " + _WAS_VER.format(y="y") + ")"],
+         modifies=_FIND_MODS + ["*self.vertices", "*self._one_way_vertices", "all:Set(Int)"],
+         notes="a one-way edge alone never changes the partition")
+
+contract(F, "EquivalenceDB.connect_cycles", props=["C06", "C05"], verify=False,
+         trusted_reason="depth-first cycle detection over tuples of paths: outside the verified subset; its effect on the "
+                        "partition (merges only, verified flags kept) is summarised here and checked by the bounded SCC oracle",
+         params={"self": E},
+         ensures=["forall(lambda x, y: implies(old(self.rep[x]) == old(self.rep[y]), self.rep[x] == self.rep[y]))",
+                  "forall(lambda y: implies(" + _WAS_VER.format(y="y") + ", " + _IS_VER.format(y="y") + "))"],
+         modifies=_FIND_MODS + ["*self.verified_roots", "self.rep", "*self._one_way_vertices", "self._one_way_vertices",
+                                "all:Set(Int)", "all:DefaultDict(Int, Set(Int))"])
